@@ -141,13 +141,15 @@ def build(clean=False, targets=None):
     lock = os.path.join(COQ, '.build.lock')
     files = ' '.join(coq_files())
     tg = ' '.join(t[:-2] + '.vo' for t in targets) if targets else ''
-    cmd = ('cd %s && flock %s sh -c "%s '
+    # the verdict is make's exit status (coqdep's "*** Warning: ... not found" about a file that is not in the
+    # requested dependency closure must not fail an unrelated check)
+    cmd = ('cd %s && flock %s bash -c "set -o pipefail; %s '
            'coq_makefile -f _CoqProject %s -o Makefile.coq > /dev/null && '
            'timeout 3000 make -f Makefile.coq -j%d %s 2>&1 | tail -40"'
            % (COQ, lock, 'make -f Makefile.coq clean >/dev/null 2>&1;' if clean and os.path.exists(os.path.join(COQ, 'Makefile.coq')) else '',
               files, JOBS, tg))
     rc, out = sh(cmd, timeout=3600)
-    ok = rc == 0 and 'Error' not in out and '***' not in out
+    ok = rc == 0 and not re.search(r'^Error|\bError:|make(\[\d+\])?: \*\*\*', out, flags=re.M)
     return ok, out
 
 
